@@ -405,10 +405,10 @@ theorem contract_pop : ∀ args, Refines (call "pop" args) (Spec.Builtins.call "
 theorem contract_get_arr (xs : List Val) (n : Int64) (i : Nat) :
     Refines (call "get" [.arr i xs, .int n]) (Spec.Builtins.call "get" [.arr i xs, .int n]) := by
   show Refines (.ok (if n < 0 then .null else xs.getD n.toNatClampNeg .null))
-    (if n.toInt < 0 then .any else .value (xs.getD n.toInt.toNat .null))
+    (if n.toInt < 0 then .value .null else .value (xs.getD n.toInt.toNat .null))
   have hlt : (n < 0) ↔ n.toInt < 0 := by rw [Int64.lt_iff_toInt_lt]; exact Iff.rfl
   by_cases h : n < 0
-  · simp only [h, hlt.mp h, if_true]; exact refines_any _ (fun _ h => Res.noConfusion h)
+  · simp only [h, hlt.mp h, if_true]; exact refines_val _
   · have h' : ¬ n.toInt < 0 := fun x => h (hlt.mpr x)
     simp only [h, h', if_false]; exact refines_val _
 
